@@ -12,7 +12,8 @@ DESCRIPTION = {
              "Generated: Hypothesis payloads (sizes biased to 127/128 and 16-byte block edges, up to 64KiB quick/1MiB thorough), "
              "random keys, multi-way chunkings; non-trivial by the same rule, distinct by digest of (impl,key,len,offset,chunks). "
              "Oracle: out[i]==in[i]^key[(offset+i)%4] computed with big-int XOR, pointer()==bytes processed, "
-             "involution, chunked==one-shot. Receive side through the protocol: a scripted peer sends masked frames (consecutive frames with the same key, other keys, the zero key; all length "
+             "involution, chunked==one-shot. Send side through the frame API: sendFrame(payload, payload_len=N) for N below/at/above len(payload) with own, explicit and zero keys - the wire octets "
+             "are the effective payload XOR the frame's key.  Receive side through the protocol: a scripted peer sends masked frames (consecutive frames with the same key, other keys, the zero key; all length "
              "classes; fragments; drawn read chunking) to a library server, each message must arrive as data XOR key.  Mask policy: wire log of library client/server pairs through every send API (sendMessage with and without fragmentation, "
              "frame-wise, streaming, prepared): every client frame masked, no server frame masked, and no two client frames share a key (the 32-bit key draw is replaced by a "
              "collision-free sequence inside the check, so an equal key means that no new key was drawn)."),
@@ -49,6 +50,8 @@ def plan(tier, seed):
         for fw in ("twisted", "asyncio"):
             jobs.append({"func": "rx_frames", "fw": fw, "nvx": nvx, "nvxbuild": nvx == "1", "name": "rx_frames/%s/nvx%s" % (fw, nvx),
                          "args": {"seed": seed * 1000 + 800 + (fw == "asyncio") * 10 + int(nvx), "n": 120 if tier == "quick" else 1200}})
+    for nvx in ("1", "0"):
+        jobs.append({"func": "send_frame_api", "fw": "twisted", "nvx": nvx, "nvxbuild": nvx == "1", "name": "send_frame_api/nvx%s" % nvx, "args": {}})
     jobs.append({"func": "policy", "fw": "twisted", "nvx": "1", "nvxbuild": True, "name": "policy_tx",
                  "args": {"seed": seed, "n": 40 if tier == "quick" else 400}})
     return jobs
@@ -273,6 +276,45 @@ def generated(col, seed, n, big):
 
 # ---------------------------------------------------------------- mask policy on the wire
 
+def send_frame_api(col):
+    """enumerated: a client writes single frames through sendFrame(payload, payload_len=N) - N below, at and above len(payload) (the payload is then
+    truncated / repeated), with the library's own key and with an explicit key: the octets on the wire are the effective payload XOR the frame's key"""
+    from harness import drv, wsutil, ref6455
+    d = drv.get_driver()
+    try:
+        side = wsutil.client(d, opts={"openHandshakeTimeout": 0, "closeHandshakeTimeout": 0})
+        wsutil.open_client(side)
+        side.ep.take()
+        for plen in (0, 1, 2, 3, 4, 5, 7, 8, 9, 13, 16, 125, 126, 130):
+            pat = pattern(plen, plen)
+            for n in sorted(set([None, 0, 1, plen - 1, plen, plen + 1, plen + 2, plen + 3, plen + 4, 2 * plen, 2 * plen + 1, 3 * plen + 2, 127, 200]) - {-1}, key=lambda x: -1 if x is None else x):
+                for key in (None, b"\x01\x02\x03\x04", b"\x00\x00\x00\x00"):
+                    if plen == 0 and n is not None:
+                        continue        # the API refuses to repeat an empty payload (documented: raises)
+                    case = {"check": "send_frame_api", "plen": plen, "payload_len": n, "key": key}
+                    try:
+                        d.call(lambda: side.proto.sendFrame(2, pat, True, 0, key, n))
+                    except Exception as e:
+                        raise Violation("C15|sendFrame|raised|" + exc_key(e), "sendFrame(len %d, payload_len=%r, mask=%r): %r" % (plen, n, key, e), case)
+                    d.settle()
+                    raw = side.ep.take()
+                    frames, rest = ref6455.parse_frames(raw)
+                    want = pat if n is None else ((pat * (n // max(1, plen) + 2))[:n] if plen else b"")
+                    if rest or len(frames) != 1:
+                        raise Violation("C15|sendFrame|not-one-frame", "%d frames, %d stray octets" % (len(frames), len(rest)), case)
+                    f = frames[0]
+                    if not f.masked or (key is not None and f.mask != key):
+                        raise Violation("C15|sendFrame|mask-bit-or-key", "masked=%r key=%r wanted %r" % (f.masked, f.mask, key), case)
+                    if f.payload != want:
+                        k = next((i for i in range(min(len(want), len(f.payload))) if want[i] != f.payload[i]), min(len(want), len(f.payload)))
+                        raise Violation("C15|sendFrame|wire-payload-is-not-data-xor-key", "payload of %d octets, payload_len=%r: after unmasking with the frame's key the wire gives %d octets, first difference at index %d" % (
+                            plen, n, len(f.payload), k), case)
+                    col.case(n is not None and n > plen and plen % 4 != 0, enum=True, cls=["sendFrame/" + ("repeated" if (n or 0) > plen else ("truncated" if n is not None and n < plen else "as-is"))], sample=case)
+    finally:
+        d.close()
+    col.exhaustive.append("C15 sendFrame: 14 payload lengths x 14 payload_len values x {own key, explicit key, zero key}")
+
+
 def rx_frames(col, seed, n, only=None):
     """receive side through the protocol: a scripted peer sends masked frames to a library server - consecutive frames with the SAME key, with
     different keys, zero keys, every length class, delivered in drawn chunk sizes: each message arrives as data XOR key from offset 0 of its frame"""
@@ -334,6 +376,9 @@ def replay(col, case):
     inner = case.get("case")
     c = inner if isinstance(inner, dict) and "check" in inner else case
     kind = c["check"]
+    if kind == "send_frame_api":
+        send_frame_api(col)
+        return
     if kind == "rx_frames":
         cc = {k: v for k, v in c.items() if k != "check"}
         cc["frames"] = [dict(f) for f in cc["frames"]]
